@@ -23,6 +23,21 @@ func c20(c *Sexp) *Sexp {
 		return L(KV("raw", raw), KV("err", A("")), KV("tree", d), KV("audit", audit))
 	case "sample", "prune", "prunemulti":
 		return L(KV("raw", rawStream(int64(c.Int("seed")), c.Int("nraw"))))
+	case "shufflemulti":
+		// the same tree shuffled under several seeds: the tip names (Tips() order) and the names of
+		// all nodes (Nodes() order) after each shuffle, for the distribution-over-seeds oracle
+		results := L()
+		for _, sd := range c.IntList("seeds") {
+			t, err := BuildTree(c.Get("tree"))
+			if err != nil {
+				return L(KV("panic", A("build: "+err.Error())))
+			}
+			raw := rawStream(int64(sd), c.Int("nraw"))
+			t.ShuffleTips()
+			d, audit := ObserveTree(t)
+			results.List = append(results.List, L(KV("raw", raw), KV("tree", d), KV("audit", audit)))
+		}
+		return L(KV("raw", L()), KV("results", results))
 	case "shuffle":
 		t, err := BuildTree(c.Get("tree"))
 		if err != nil {
